@@ -99,7 +99,7 @@ def data_stmt(draw):
 
 
 @_st.composite
-def structured_program(draw, pools, cpus=None, align_data=True):
+def structured_program(draw, pools, cpus=None, align_data=True, repeats=True):
     cpu = draw(_st.sampled_from([c for c in (cpus or GEN_CPUS) if pools.get(c)]))
     pool = pools[cpu]
     p = Prog(cpu)
@@ -157,14 +157,15 @@ def structured_program(draw, pools, cpus=None, align_data=True):
                 for t in body("else", draw(_st.integers(1, 2))):
                     p.add(t, "if_untaken" if taken else "if_taken")
             p.add(".endif", "ifdir")
-        elif c == 11:
+        elif c == 11 and repeats:
             p.add(".repeat %d" % draw(_st.integers(1, 4)), "repeatdir")
             for _ in range(draw(_st.integers(1, 2))):
                 p.add("  " + draw(data_stmt()), "repeat")
+                p.add("  .align 64", "repeat")
             p.add(".endr", "repeatdir")
         elif c == 12:
             name = "inc%d.inc" % len(p.files)
-            text = "\n".join(body("inc", draw(_st.integers(1, 3)))) + "\n"
+            text = (".list\n" if align_data else "") + "\n".join(body("inc", draw(_st.integers(1, 3)))) + "\n"
             p.files.append((name, text))
             p.add(".include \"%s\"" % name, "includedir")
         else:
@@ -174,6 +175,7 @@ def structured_program(draw, pools, cpus=None, align_data=True):
         p.add("  .dc32 lbl_end", "top")
     p.add("lbl_end:", "top")
     p.add("  .db 0x5a", "top")
+    p.add("  .align 64", "top")
     return p
 
 
